@@ -46,7 +46,7 @@ func judgeC06(c *StopCase, o *StopObs) error {
 		if first == nil {
 			return fmt.Errorf("the connection failed (%s at packet %d), Stream returned nil and Error() returned nil: a lost connection was reported as a clean end", k, c.Fault.At)
 		}
-	case "refuse", "err_handshake", "err_query":
+	case "refuse", "err_handshake", "err_query", "dump_unsendable":
 		if first == nil {
 			return fmt.Errorf("the attempt failed while connecting (%s) but Stream and Error() both returned nil", k)
 		}
